@@ -127,7 +127,10 @@ func (r *c07Run) reset() {
 func c07Header(w *c07World) []int64 {
 	line := []int64{7, w.kind, 0, c07U}
 	if w.hasScope {
-		line[2] = 1
+		line[2] |= 1
+	}
+	if w.limited {
+		line[2] |= 2
 	}
 	line = append(line, w.limD...)
 	line = append(line, w.limL...)
@@ -164,7 +167,7 @@ func c07Accepts(fn func(protocol.ID) bool) []int64 {
 	return acc
 }
 
-func (w *c07World) limited(p int64) bool { return w.limD[p] >= 0 || w.limL[p] >= 0 }
+func (w *c07World) hasLimit(p int64) bool { return w.limD[p] >= 0 || w.limL[p] >= 0 }
 
 func c07FirstMatch(tab []c07Ent, p int64) *c07Ent {
 	for i := range tab {
